@@ -304,6 +304,66 @@ func (w *world) do(o op) Sx {
 			return T("del", I(1), U64(uint64(id)))
 		}
 		return T("del", I(0), I(0))
+	case "fill":
+		// (fill t n base period seed KEYS.VALUES): n Inserts in one step (medium arenas with the fine
+		// correspondence: the state is rendered once, after the last Insert)
+		t, n, base, period, seed := o.arg(0), o.arg(1), uint32(o.arg(2)), o.arg(3), uint32(o.arg(4))
+		if !w.okTree(t) || n < 0 || n > 5000 {
+			return skip
+		}
+		kp, vp := splitPats(o.mode)
+		vals := genBuf(vp, n, period, seed)
+		var ids []uint32
+		msg, p := Catch(func() {
+			for i := 0; i < n; i++ {
+				ok, it := w.trees[t].t.Insert(verifapi.Item{Key: keyAt(kp, i, n, base), Value: vals[i]})
+				if ok {
+					ids = append(ids, it.VerifNode())
+				}
+			}
+		})
+		if p {
+			if len(ids) > 0 {
+				return T("panic", A("partial")) // never seen: Insert on an awake allocator does not panic
+			}
+			return T("panic", A(panicClass(msg)))
+		}
+		w.mallocs += len(ids)
+		return T("fill", u32sSx(ids))
+	case "drain":
+		// (drain t k stride): DeleteWithKey of every stride-th key (in key order), k of them, in one step
+		t, k, stride := o.arg(0), o.arg(1), o.arg(2)
+		if !w.okTree(t) || stride < 1 {
+			return skip
+		}
+		tr := w.trees[t].t
+		var ids []uint32
+		msg, p := Catch(func() {
+			var keys []uint32
+			limit := tr.Len() + 3
+			i := 0
+			for it := tr.Min(); !it.Limit() && i < limit; it = it.Next() {
+				if i%stride == stride-1 && len(keys) < k {
+					keys = append(keys, it.Item().Key)
+				}
+				i++
+			}
+			for _, key := range keys {
+				it := tr.FindGE(key)
+				id := it.VerifNode()
+				if tr.DeleteWithKey(key) {
+					ids = append(ids, id)
+				}
+			}
+		})
+		if p {
+			if len(ids) > 0 {
+				return T("panic", A("partial"))
+			}
+			return T("panic", A(panicClass(msg)))
+		}
+		w.frees += len(ids)
+		return T("drain", u32sSx(ids))
 	case "erase":
 		t := o.arg(0)
 		if !w.okTree(t) {
@@ -921,6 +981,47 @@ func genClone(s *script) {
 	}
 }
 
+// genMedium: arenas of a few hundred to a few thousand cells with the FINE correspondence (bulk fill / drain
+// steps, the model runs on everything).  Sizes straddle the widths of the varints of the file (2^7, and 2^7 gaps),
+// 2^8 and 10^3; values incompressible or periodic so that the compressed buffers need 2-byte lengths as well.
+func genMedium(s *script, size int, vp string, period int, disk bool) {
+	r := cfg.Rng
+	kp := []string{"asc", "desc", "rnd"}[r.Intn(3)]
+	s.do("newtree", "", 0)
+	s.do("newtree", "", 0)
+	small := size / 5
+	s.do("fill", kp+"."+vp, 0, size-1-small, 0, period, int(r.Int31()))
+	s.do("fill", "rnd.rnd", 1, small, 3, 1, int(r.Int31()))
+	gaps := r.Intn(3)
+	if gaps >= 1 {
+		s.do("drain", "", 1, small/3+1, 2)
+	}
+	if gaps == 2 {
+		s.do("drain", "", 0, []int{126, 127, 128, 129, 300}[r.Intn(5)], 2)
+	}
+	a := 0
+	s.do("used", "", a)
+	s.do("thr", "rel", a, []int{-1, 0}[r.Intn(2)])
+	s.do("hib", "", a)
+	if disk && !s.w.awake(a) {
+		s.do("ser", "", a)
+		s.do("boot", "", a)
+		file := s.w.files[a]
+		for k := 0; k < 4; k++ {
+			s.do("deser", "", a, a, r.Intn(len(file)))
+		}
+		s.do("deser", "", a, a, len(file)-1)
+		s.do("deser", "", a, a, -1)
+	}
+	s.do("boot", "", a)
+	s.do("used", "", a)
+	// the gaps are re-used (in Go map order), then a second round trip
+	s.do("fill", "asc.seq", 1, 40+r.Intn(100), 100000, 1, 0)
+	s.do("drain", "", 0, 10, 7)
+	s.roundTrip(a, []int{-1, 0}[r.Intn(2)], !disk, 1)
+	s.mutate(5, 30, 0)
+}
+
 // exhaustive: every sequence of length <= n over a small alphabet of allocator-level operations
 // (two raw owners on one allocator).
 func exhaustive(n int) {
@@ -969,6 +1070,10 @@ func main() {
 			for _, x := range f.Args() {
 				ops = append(ops, parseOp(x))
 			}
+			if len(ops) > 0 && isBigOp(ops[0].kind) {
+				runBig(kind, ops, 900*time.Second)
+				continue
+			}
 			guarded(kind, func(s *script) {
 				for _, o := range ops {
 					s.do(o.kind, o.mode, o.args...)
@@ -978,6 +1083,17 @@ func main() {
 		return
 	}
 
+	genScale()
+	msizes := append(straddle(1<<7, 1<<8), 300, 1000)
+	if cfg.Tier == "thorough" {
+		msizes = append(msizes, straddle(1<<9, 1<<10, 1<<11)...)
+		msizes = append(msizes, 3000)
+	}
+	for i, size := range msizes {
+		for j, vp := range []string{"rnd", "per", "seq", "const"} {
+			guarded("medium", func(s *script) { genMedium(s, size, vp, []int{16, 33, 64, 127}[(i+j)%4], (i+j)%2 == 0) })
+		}
+	}
 	if cfg.Tier == "thorough" {
 		exhaustive(5)
 	} else {
